@@ -119,11 +119,14 @@ def correspondence_scripted(tier, seed, corpus):
     while len(specs) < n:
         specs.append(L.gen_spec(rng))
     cases, meta, problems = [], [], []
-    hist = dict(scalars={}, lmis={}, lmi_sizes={}, lmi_kinds={}, interleavings=0, asymmetric_models=0)
+    hist = dict(scalars={}, lmis={}, lmi_sizes={}, heuristic={}, interleavings=0, asymmetric_models=0)
     distinct = set()
-    for spec in specs:
+    for idx, spec in enumerate(specs):
+        # every dimension-reduction configuration must expose the certificate of the FIRST solve
+        heur = spec.get("heuristic", {3: "trace", 4: "logdet2"}.get(idx % 5))
+        spec = dict(spec, heuristic=heur)
         try:
-            r = run_scripted(spec)
+            r = run_scripted(spec, heuristic=heur)
         except Exception as e:      # the real post-solve code must run on every declared model
             problems.append(dict(kind="implementation-raised", spec=spec, error=repr(e)[:400]))
             continue
@@ -131,6 +134,7 @@ def correspondence_scripted(tier, seed, corpus):
             problems.append(dict(kind="pep-lists-differ-from-wrapper-list", spec=spec))
         cases.append((r["coq"], r["impl"]))
         meta.append(spec)
+        hist["heuristic"][str(heur)] = hist["heuristic"].get(str(heur), 0) + 1
         items = r["items"]
         nsc = sum(1 for it in items if it[0] == "SC")
         nl = len(items) - nsc
@@ -164,3 +168,149 @@ def correspondence_scripted(tier, seed, corpus):
 
 def correspondence(tier, seed, corpus=()):
     return [correspondence_scripted(tier, seed, corpus)]
+
+
+# ------------------------------------------------------------------------------------------ really solved models
+IDENTITY_KINDS = ("identity-residual-exceeds-tolerance", "returned-value-is-not-the-constant-of-the-identity",
+                  "dual-value-below-primal-value")
+
+
+def check_solved(spec):
+    """solve `spec` with SCS; returns (measurements, [violations])"""
+    pep, val = L.solve_real(spec)
+    m = L.measure_certificate(pep, val)
+    tol = 100.0 * (m["kkt_residual"] + 1e-5)
+    m["solver_status"] = pep.solver_statuses
+    bad = []
+    if not pep.all_optimal:      # the solver did not converge: nothing is claimed about its output
+        m["tolerance"] = tol
+        return m, bad
+    if m["identity_residual"] > tol:
+        bad.append("identity-residual-exceeds-tolerance")
+    if abs(m["tau_ours"] - m["returned"]) > tol:
+        bad.append("returned-value-is-not-the-constant-of-the-identity")
+    if m["returned"] < m["primal"] - tol:
+        bad.append("dual-value-below-primal-value")
+    if m["min_inequality_dual"] < -tol:
+        bad.append("negative-multiplier-on-an-inequality")
+    if m["min_eigenvalue"] < -tol:
+        bad.append("multiplier-matrix-not-psd")
+    m["tolerance"] = tol
+    return m, bad
+
+
+def correspondence_scs(tier, seed):
+    rng = random.Random(seed * 7717 + 3)
+    n = 15 if tier == "quick" else 120
+    specs = L.solvable_specs(rng, n)
+    problems, samples, kkt = [], [], []
+    hist = dict(lmi={}, steps={}, asymmetric=0)
+    nontrivial = 0
+    for spec in specs:
+        try:
+            m, bad = check_solved(spec)
+        except Exception as e:
+            problems.append(dict(kind="solve-raised", solved_spec=spec, error=repr(e)[:300]))
+            continue
+        kkt.append(m["kkt_residual"])
+        if m["solver_status"] != ["optimal"]:
+            hist["solver_not_converged"] = hist.get("solver_not_converged", 0) + 1
+        hist["lmi"][spec["lmi"]] = hist["lmi"].get(spec["lmi"], 0) + 1
+        hist["steps"][spec["n"]] = hist["steps"].get(spec["n"], 0) + 1
+        hist["asymmetric"] += int(m["asymmetric_lmi"])
+        if m["n_constraints"] >= 5:
+            nontrivial += 1
+        if len(samples) < 2:
+            samples.append(dict(solved_spec=spec, measured=m))
+        for kind in bad:
+            problems.append(dict(kind=kind, solved_spec=spec, measured=m))
+    return dict(name="scs-solves", evaluations=len(specs), distinct_nontrivial=nontrivial,
+                rule="seeded gradient-method models (1-3 steps, several L/mu/step sizes, metrics, user LMIs 2x2 / 3x3 "
+                     "symmetric and asymmetric, function-level LMI, equality) really solved with SCS; our own residual of "
+                     "the identity over all keys, signs and eigenvalues against 100 x (stationarity residual of the raw "
+                     "solver output + 1e-5); non-trivial = at least 5 sent constraints",
+                mismatches=[], n_mismatch=0, problems=problems[:6], n_problems=len(problems), samples=samples,
+                distribution=dict(hist, max_kkt_residual_of_solver=max(kkt) if kkt else None))
+
+
+def correspondence(tier, seed, corpus=()):
+    return [correspondence_scripted(tier, seed, corpus), correspondence_scs(tier, seed)]
+
+
+# ------------------------------------------------------------------------------------------ module API
+def search(tier, seed):
+    """failing-input search on the IMPLEMENTATION: scripted cases compared with the model, then real solves"""
+    rng = random.Random(seed + 10101)
+    batch = []
+    for _ in range(60 if tier == "quick" else 600):
+        batch.append(L.gen_spec(rng))
+    cases = []
+    for idx, spec in enumerate(batch):
+        spec = dict(spec, heuristic={3: "trace", 4: "logdet2"}.get(idx % 5))
+        try:
+            r = run_scripted(spec, heuristic=spec["heuristic"])
+        except Exception as e:
+            return dict(kind="implementation-raised", spec=spec, error=repr(e)[:300])
+        cases.append((r["coq"], r["impl"], spec))
+    bad = run_cases("c01s", IMPORTS, RUN, [(a, b) for a, b, _ in cases], shard=40, input_type=INPUT_TYPE)
+    if bad:
+        return dict(kind="scripted-case-differs-from-model", spec=cases[bad[0]][2])
+    for spec in L.solvable_specs(rng, 10 if tier == "quick" else 80, asym_every=0):
+        try:
+            m, kinds = check_solved(spec)
+        except Exception as e:
+            return dict(kind="solve-raised", solved_spec=spec, error=repr(e)[:300])
+        if kinds:
+            return dict(kind=kinds[0], solved_spec=spec, measured=m)
+    return None
+
+
+def is_known(payload, known):
+    """F-C01a: the model contains an LMI that is not symmetric as written, the solver's raw output satisfies
+    stationarity (entry duals included), and what fails is the identity / the returned constant."""
+    for k in known:
+        if k["id"] != "F-C01a":
+            continue
+        m = payload.get("measured") or {}
+        if payload.get("kind") in IDENTITY_KINDS and m.get("asymmetric_lmi") is True \
+                and payload.get("solved_spec", {}).get("lmi") == "asym" \
+                and m.get("kkt_residual", 1.0) <= 1e-4 and m.get("min_eigenvalue", -1.0) >= -1e-4:
+            return k["id"]
+    return None
+
+
+def known_findings(known):
+    out = []
+    for k in known:
+        if k["id"] == "F-C01a":
+            spec = k["trigger"]["solved_spec"]
+            try:
+                m, kinds = check_solved(spec)
+                still = "dual-value-below-primal-value" in kinds and m["asymmetric_lmi"]
+                what = ("LMI not symmetric as written: entry multipliers are discarded, solve() returned %.4f below the "
+                        "primal value %.4f (identity residual %.3g, solver stationarity residual %.1e)"
+                        % (m["returned"], m["primal"], m["identity_residual"], m["kkt_residual"]))
+            except Exception as e:
+                still, what = False, "replay raised %r" % (e,)
+            out.append((k["id"], still, what))
+    return out
+
+
+def replay(payload):
+    """True iff the stored case still fails on the current implementation"""
+    if "spec" in payload:
+        spec = payload["spec"]
+        try:
+            r = run_scripted(spec, heuristic=spec.get("heuristic"))
+        except Exception:
+            return True
+        if not r["same_lists"]:
+            return True
+        return bool(run_cases("c01r", IMPORTS, RUN, [(r["coq"], r["impl"])], input_type=INPUT_TYPE))
+    if "solved_spec" in payload:
+        try:
+            m, kinds = check_solved(payload["solved_spec"])
+        except Exception:
+            return True
+        return bool(kinds)
+    return False
